@@ -169,6 +169,7 @@ struct Options {
     std::string unit = "unit";
     std::set<std::string> open_findings;
     bool hang_is_violation = true;
+    uint64_t max_rss_mb = 6000;  // a single case whose process grows beyond this is stopped (runaway allocation), see run_child()
     int max_failures = 3;
     std::map<std::string, std::string> extra;  // harness-specific --key value
 };
@@ -469,6 +470,7 @@ inline void parse_args(int argc, char** argv) {
         } else if (a == "--cases") o.cases = std::strtoull(val().c_str(), nullptr, 10);
         else if (a == "--case-timeout") o.case_timeout = std::atof(val().c_str());
         else if (a == "--budget") o.budget_s = std::atof(val().c_str());
+        else if (a == "--max-rss-mb") o.max_rss_mb = std::strtoull(val().c_str(), nullptr, 10);
         else if (a == "--out") o.out = val();
         else if (a == "--replay") o.replay = val();
         else if (a == "--viol-dir") o.viol_dir = val();
@@ -527,7 +529,7 @@ inline int run_one_in_process(const Property& prop, Src& src) {
 }
 
 struct ChildOutcome {
-    enum Kind { ok, failed, crashed, hung } kind = ok;
+    enum Kind { ok, failed, crashed, hung, blown } kind = ok;  // blown: resident memory beyond --max-rss-mb
     std::string sig;
     std::string msg;
     int signal_no = 0;
@@ -567,12 +569,32 @@ inline ChildOutcome run_child(const std::function<int()>& fn, double timeout_s, 
     uint64_t last_hb = sh->heartbeat;
     double last_change = now_s();
     int status = 0;
+    unsigned polls = 0;
     for (;;) {
         pid_t w = waitpid(pid, &status, WNOHANG);
         if (w == pid) break;
         if (w < 0 && errno != EINTR) {
             perror("waitpid");
             std::exit(3);
+        }
+        if (++polls % 64 == 0 && opts().max_rss_mb > 0) {
+            // runaway allocation guard: resident set size of the child (the shared region is not counted as it is file-less shared memory
+            // touched only where used)
+            char path[64];
+            std::snprintf(path, sizeof(path), "/proc/%d/statm", static_cast<int>(pid));
+            if (FILE* f = std::fopen(path, "r")) {
+                unsigned long long size = 0, resident = 0;
+                if (std::fscanf(f, "%llu %llu", &size, &resident) == 2 && resident * 4096ULL / (1024 * 1024) > opts().max_rss_mb) {
+                    std::fclose(f);
+                    kill(pid, SIGKILL);
+                    waitpid(pid, &status, 0);
+                    out.kind = ChildOutcome::blown;
+                    out.sig = "memory-blowup";
+                    out.msg = "one case made the process grow beyond " + std::to_string(opts().max_rss_mb) + " MB resident memory";
+                    return out;
+                }
+                std::fclose(f);
+            }
         }
         uint64_t hb = sh->heartbeat;
         if (hb != last_hb) {
@@ -630,7 +652,7 @@ inline ChildOutcome run_sequence(const Property& prop, const std::vector<uint64_
 
 inline bool same_failure(const ChildOutcome& a, const ChildOutcome& b) {
     if (b.kind == ChildOutcome::ok) return false;
-    if (a.kind == ChildOutcome::crashed || a.kind == ChildOutcome::hung) return a.kind == b.kind;
+    if (a.kind == ChildOutcome::crashed || a.kind == ChildOutcome::hung || a.kind == ChildOutcome::blown) return a.kind == b.kind;
     return a.kind == b.kind && a.sig == b.sig;
 }
 
@@ -639,8 +661,8 @@ inline std::vector<uint64_t> shrink(const Property& prop, std::vector<uint64_t> 
                                     double max_seconds = 40.0) {
     int attempts = 0;
     double t0 = now_s();
-    if (orig.kind == ChildOutcome::hung) {
-        max_attempts = 12;  // each attempt costs a full timeout
+    if (orig.kind == ChildOutcome::hung || orig.kind == ChildOutcome::blown) {
+        max_attempts = 12;  // each attempt costs a full timeout / a few GB
     }
     auto still_fails = [&](const std::vector<uint64_t>& cand) -> bool {
         if (attempts >= max_attempts || now_s() - t0 > max_seconds) return false;
